@@ -41,8 +41,8 @@ def showAsmErr : AsmErr → String
   | .undeclaredExpressionMacro n => s!"err UndeclaredExpressionMacro {n}"
   | .undeclaredVariableMacro v => s!"err UndeclaredVariableMacro {v}"
   | .divisionByZero => "err Asm.DivisionByZero"
-  | .macroArgumentCount _ => "err Asm.MacroArgumentCount"
-  | .macroRecursionLimit _ => "err Asm.MacroRecursionLimit"
+  | .macroArgumentCount n => s!"err Asm.MacroArgumentCount {n}"
+  | .macroRecursionLimit n => s!"err Asm.MacroRecursionLimit {n}"
   | .panic _ => "panic"
 
 def decodeUtf8 (bytes : List Nat) : Option (List Nat) :=
